@@ -21,6 +21,7 @@ import (
 	"github.com/cockroachdb/pebble/vfs"
 
 	"github.com/LiskHQ/lisk-engine/pkg/blockchain"
+	"github.com/LiskHQ/lisk-engine/pkg/codec"
 	"github.com/LiskHQ/lisk-engine/pkg/db"
 	"github.com/LiskHQ/lisk-engine/pkg/framework"
 	"github.com/LiskHQ/lisk-engine/pkg/framework/config"
@@ -104,7 +105,9 @@ type runner struct {
 	logger   log.Logger
 	chain    []tip
 	salt     int
-	lastErr  error
+	// tainted: an engine-style Revert was rejected and the harness went on without an expected
+	// root; the application's root record is then not the engine's, so restarts are skipped.
+	tainted bool
 }
 
 var chainID = []byte{4, 0, 0, 9}
@@ -267,7 +270,7 @@ func (r *runner) mkTx(sc *Script, vread bool) *blockchain.Transaction {
 		Fee:             0,
 		SenderPublicKey: zeros(32),
 		Params:          mustJSON(&c),
-		Signatures:      []codec_hex{zeros(64)},
+		Signatures:      []codec.Hex{zeros(64)},
 	}
 	tx.Init()
 	return tx
@@ -778,9 +781,13 @@ func (r *runner) revertTop() bool {
 			deleted++
 		}
 	}
+	// diagnosis model: RevertDiff deletes the added keys (leaf may stay with value H("")),
+	// sets the deleted/updated ones; leaves left by earlier deletions stay unless set again
 	ghostAfter := map[string]bool{}
-	for k := range prev.ghost {
-		ghostAfter[k] = true
+	for k := range cur.ghost {
+		if _, ok := prev.state[k]; !ok {
+			ghostAfter[k] = true
+		}
 	}
 	for k := range cur.state {
 		if _, ok := prev.state[k]; !ok {
@@ -799,9 +806,12 @@ func (r *runner) revertTop() bool {
 		return false
 	}
 	defer r.call("Clear", func() error { _, e := r.h.Clear(&labi.ClearRequest{}); return e })
+	// cur.root is the block header's state root (consensus passes c.header.StateRoot) unless an
+	// earlier engine-style Revert was rejected (tainted), in which case it is the root of the
+	// tree the application really has.
 	var resp *labi.RevertResponse
 	err := r.call("Revert", func() (e error) {
-		resp, e = r.h.Revert(&labi.RevertRequest{ContextID: ctxID, StateRoot: cur.header.StateRoot, ExpectedStateRoot: prev.header.StateRoot})
+		resp, e = r.h.Revert(&labi.RevertRequest{ContextID: ctxID, StateRoot: cur.root, ExpectedStateRoot: prev.header.StateRoot})
 		return
 	})
 	if r.dead() {
@@ -817,9 +827,10 @@ func (r *runner) revertTop() bool {
 		got, _ := hex.DecodeString(m[1])
 		r.checkRoot("revert", got, prev.state, ghostAfter)
 		r.count("revert_engine_style_rejected_root_mismatch", 1)
+		r.tainted = true
 		// keep observing: revert without an expected root (the API allows it)
 		if err2 := r.call("Revert(no-expected-root)", func() (e error) {
-			resp, e = r.h.Revert(&labi.RevertRequest{ContextID: ctxID, StateRoot: cur.header.StateRoot})
+			resp, e = r.h.Revert(&labi.RevertRequest{ContextID: ctxID, StateRoot: cur.root})
 			return
 		}); err2 != nil {
 			r.abiErr("Revert(no-expected-root)", err2)
@@ -857,6 +868,10 @@ func (r *runner) revertTop() bool {
 // (crash between the application's Commit and the engine's own batch), the process
 // restarts and the engine calls Init with its tip.
 func (r *runner) restart(op *Op) bool {
+	if r.tainted {
+		r.count("restart_skipped_after_rejected_revert", 1)
+		return true
+	}
 	engineLen := len(r.chain)
 	for _, blk := range op.Extra {
 		if !r.runBlock(blk) {
@@ -884,16 +899,6 @@ func (r *runner) restart(op *Op) bool {
 		return false
 	}
 	if err != nil {
-		// classify a root conflict with the diagnosis model; any error is a failed recovery
-		ghost := map[string]bool{}
-		for i := len(r.chain) - 1; i >= engineLen; i-- {
-			for k := range r.chain[i].ghost {
-				ghost[k] = true
-			}
-			for k := range r.chain[i].state {
-				ghost[k] = true
-			}
-		}
 		r.violate(fmt.Sprintf("init-recovery:error:%s", errClass(err)), fmt.Sprintf("Init with the application %d block(s) ahead of the engine returned an error instead of rolling back: %v", ahead, err), map[string]any{"ahead": ahead})
 		r.abort("init error")
 		return false
@@ -903,7 +908,7 @@ func (r *runner) restart(op *Op) bool {
 		r.abort("init state")
 		return false
 	}
-	if h, root, ok := r.treeState(); !ok || h != engine.height || !bytes.Equal(root, engine.root) {
+	if h, root, ok := r.treeState(); !ok || h != engine.height || !bytes.Equal(root, engine.header.StateRoot) {
 		r.violate("init-recovery:tree-state-record-wrong", fmt.Sprintf("after Init (application %d ahead) the application's (height, root) record is not the engine's tip", ahead), map[string]any{"height": h, "want": engine.height, "ahead": ahead})
 	}
 	r.count(fmt.Sprintf("init_recovered_ahead_%d", ahead), 1)
